@@ -420,6 +420,59 @@ def nested_core():
     return cases
 
 
+def dynobj_core():
+    """Objects created at run time by the setup blocks of sub-scenarios: with and without behaviours, guards
+    that fail at the time of the invocation, two sub-scenarios invoked in one `do`, a sub-scenario invoked twice
+    (two generations of objects), schedules that put the new agents before / after the old ones, the creating
+    scenario ending (limit / terminate when) while its agents go on."""
+    cases = []
+    main = {"pre": [], "inv": [], "body": [["while", "T", [["take", 1]]]]}
+    b2 = {"pre": [], "inv": [], "body": [["take", 2], ["log", "b2"], ["take", 3], ["take", 3]]}
+    b3 = {"pre": ["g"], "inv": [], "body": [["while", "T", [["take", 4], ["log", "b3"]]]]}
+    b4 = {"pre": [], "inv": ["h"], "body": [["take", 5], ["wait"], ["take", 6], ["terminate"]]}
+
+    def sd(**kw):
+        d = {"pre": [], "termWhen": [], "termSimWhen": [], "termAfter": [], "records": [], "monitors": [],
+             "hascompose": False, "compose": [], "objs": []}
+        d.update(kw)
+        return d
+
+    subs = [
+        sd(objs=[2], termAfter=[2, "steps"]),
+        sd(objs=[0, 3], termWhen=["c"]),
+        sd(objs=[3, 2], hascompose=True, compose=[["log", "s"], ["wait"], ["wait"]]),
+        sd(objs=[4], termAfter=[4, "steps"]),
+        sd(objs=[2, 4], pre=["p"], termAfter=[3, "steps"]),
+    ]
+    tops = [
+        [["log", "a"], ["sdo", [2]], ["log", "b"], ["wait"], ["wait"]],
+        [["wait"], ["sdo", [2, 3]], ["log", "b"], ["wait"]],
+        [["sdo", [2]], ["sdo", [2]], ["log", "b"], ["wait"]],
+        [["wait"], ["wait"], ["sdofor", [2], 2, "steps"], ["log", "b"], ["wait"], ["wait"]],
+    ]
+    tables = [
+        {"c": [False, False, True], "g": [True], "h": [True], "p": [True]},
+        {"c": [False], "g": [True, False, True], "h": [True, True, False, True], "p": [True]},
+        {"c": [False, True], "g": [False], "h": [False], "p": [True, False]},
+    ]
+    scheds = [[[1, 2, 3, 4, 5, 6]], [[6, 5, 4, 3, 2, 1]], [[2, 1, 4, 3, 6, 5], [1, 3, 2, 5, 4, 6]]]
+    k = 0
+    for sub in subs:
+        for top in tops:
+            for tab in tables:
+                other = subs[(subs.index(sub) + 1) % len(subs)]
+                sdefs = [sd(hascompose=True, compose=top, records=[["rec", "rt"]]), sub, other]
+                t = {"T": [True], "F": [False]}
+                t.update(tab)
+                cases.append({
+                    "defs": [main, b2, b3, b4], "agents": [1], "sdefs": sdefs, "top": 1,
+                    "monitors": [], "records": [], "termWhen": [], "termSimWhen": [], "termAfter": [],
+                    "maxSteps": 7, "dt": [1, 1], "table": t, "sched": scheds[k % len(scheds)], "impl": 0,
+                })
+                k += 1
+    return cases
+
+
 def duration_core():
     """Exhaustive core for durations: every duration construct x n in 0..3 x unit x time step,
     with a parent that acts in the step control returns to it."""
